@@ -1,7 +1,7 @@
 #!/bin/bash
 set -e
 . $MC/par.sh
-CF="-std=c++17 -O1 -g -fsanitize=address -fno-omit-frame-pointer -I$REPO -I$MC"
+CF="-std=c++17 -O1 -g -fsanitize=address -fno-omit-frame-pointer -I$REPO -I$MC -I$VERIF/harness/c02"
 par clang++ -c $CF $VERIF/harness/c03/c03_rings.cpp -o $BUILD/h.o
 par clang++ -std=c++17 -O2 -c -I$MC $MC/mc.cpp -o $BUILD/mc.o
 parwait
